@@ -32,6 +32,10 @@ def mapping_list(ctx, P):
     _ensure(ctx, P + "/mapping-list-writers", lambda n: c04.rule_mapping_list_mutators(ctx, R=n))
     _ensure(ctx, P + "/names-compared-as-stored", lambda n: c13.rule_compare_as_stored(ctx, R=n))
     _ensure(ctx, P + "/every-line-kept", lambda n: c13.rule_one_outcome(ctx, R=n))
+    # the opaque predicates the aggregation guards lean on, against their oracle tables (rules/preds.py)
+    from rules import preds
+    for pn in ("is_empty_page", "is_mapping_a_path", "is_executable"):
+        _ensure(ctx, P + "/pred-" + pn.replace("_", "-"), lambda n, pn=pn: preds.run(ctx, P, [pn]))
 
 
 def thread_list(ctx, P):
@@ -41,6 +45,7 @@ def thread_list(ctx, P):
     _ensure(ctx, P + "/thread-list-mutators", lambda n: c04.rule_thread_list_mutators(ctx, R=n))
     _ensure(ctx, P + "/every-tid-listed", lambda n: c04.rule_every_tid_listed(ctx, R=n))
     _ensure(ctx, P + "/one-record-per-thread", lambda n: c04.rule_one_per_thread(ctx, R=n))
+    _ensure(ctx, P + "/skip-only-null-sp", lambda n: c04.rule_skip_only_null_sp(ctx, R=n))
 
 
 def registers(ctx, P):
